@@ -329,8 +329,14 @@ class Program:
                 cls = Class(mod, st)
                 mod.classes[cls.name] = cls
                 if cls.name in self.classes:
-                    raise AnalysisError("duplicate class name %s" % cls.name)
-                self.classes[cls.name] = cls
+                    # two modules define a class of the same name: the package-wide index by simple name keeps the first
+                    # (module-local lookups use mod.classes); only for the public anchor classes that is not acceptable
+                    if not cls.name.startswith("_"):
+                        raise AnalysisError("duplicate class name %s" % cls.name)
+                    self.shadowed_classes = getattr(self, "shadowed_classes", [])
+                    self.shadowed_classes.append(cls)
+                else:
+                    self.classes[cls.name] = cls
                 self._index_class(cls)
             elif isinstance(st, (ast.FunctionDef, ast.AsyncFunctionDef)):
                 f = Func(mod, None, st.name, st, "function", list(st.decorator_list))
